@@ -146,6 +146,13 @@ type replayOutcome struct {
 // race replay is repeated a few times until the detector has seen the pair.
 func runNative(path string, race bool, timeout time.Duration) replayOutcome {
 	ro := runNativeOnce(path, race, timeout)
+	// a left-behind goroutine is observed natively after a grace period: on a loaded machine the
+	// observation can be early, so a leak replay that saw nothing is repeated twice
+	if b, err := os.ReadFile(path); err == nil && strings.Contains(string(b), "\"expect\": \"leak:") {
+		for try := 1; try < 3 && ro.LeakLine == "" && !ro.TimedOut && !ro.Panicked; try++ {
+			ro = runNativeOnce(path, race, timeout)
+		}
+	}
 	for try := 1; race && try < 8 && !strings.Contains(ro.Out, "WARNING: DATA RACE") && len(ro.Failed) == 0 && !ro.TimedOut && !ro.Panicked; try++ {
 		ro = runNativeOnce(path, race, timeout)
 	}
